@@ -13,6 +13,17 @@
 (*         href is a URL relative to the package document, percent-encoded *)
 (*         (EPUB 3.3 sec. 5.5 / 5.6, OPF 2.0.1 sec. 2.3 / 2.4)             *)
 (*                                                                         *)
+(* The declaration chain: an EPUB container may list several <rootfile>     *)
+(* entries (OCF 3.3 sec. 4.2.6.3.1: "the first rootfile element ... is the  *)
+(* Default Rendition"; OCF 2.0.1: entries of other media types are other    *)
+(* formats of the book).  pkg.roots lists them in container order:          *)
+(*   media  "opf" (application/oebps-package+xml) or "other"                *)
+(*   auth   TRUE for the one whose manifest/spine the parts' decl/rel/href   *)
+(*          fields describe: it must be the FIRST entry with media "opf"    *)
+(*   spine  for the other package documents: the part ids THEY declare, in   *)
+(*          their order (another order, another part set); hrefs  their refs *)
+(* XLSX and PPTX have a single root.                                        *)
+(*                                                                         *)
 (* A package is a set of parts.  Every part has                            *)
 (*   id      its content token (what its page must show)                   *)
 (*   name    the ZIP member name: directory, stem, a special character,    *)
@@ -48,6 +59,8 @@
 EXTENDS Integers, Sequences, FiniteSets, TLC, SequencesExt
 
 CONSTANTS OrderBy, Decode,
+          Chain,         \* "first": the first package-document rootfile of META-INF/container.xml is the
+                         \* publication (OCF: the default rendition); "last": the last one wins (refutable)
           Packages       \* the packages explored (bounded configs)
 
 VARIABLES pkg,      \* [fmt, base, parts]  base = directory of the declaring document
@@ -130,10 +143,27 @@ WellFormed(p) ==
     /\ {x.decl : x \in Declared(p)} = 1..NDecl(p)
     /\ \A x, y \in Declared(p) : (x.decl = y.decl) => x = y
     /\ \A x \in Declared(p) : ResolveWith(StdMode(p.fmt), p.base, x.href) = x.name
+    \* the declaration chain: the authoritative root is the first package document listed
+    /\ \E i \in 1..Len(p.roots) :
+          (p.roots[i].auth /\ p.roots[i].media = "opf"
+            /\ (\A j \in 1..Len(p.roots) : (j # i) => ~p.roots[j].auth)
+            /\ (\A h \in 1..(i - 1) : p.roots[h].media # "opf"))
+    /\ \A i \in 1..Len(p.roots) : \A k \in 1..Len(p.roots[i].spine) :
+          \E x \in PartSet(p) : x.id = p.roots[i].spine[k]
 
 \* ------------------------------ the reader ------------------------------
+\* the root the reader follows
+OpfRoots(p) == {i \in 1..Len(p.roots) : p.roots[i].media = "opf"}
+ChosenRoot(p) ==
+    IF Chain = "first" THEN CHOOSE i \in OpfRoots(p) : \A j \in OpfRoots(p) : i <= j
+    ELSE CHOOSE i \in OpfRoots(p) : \A j \in OpfRoots(p) : i >= j
+PartById(p, id) == CHOOSE x \in PartSet(p) : x.id = id
+FollowsAuth(p) == p.roots[ChosenRoot(p)].auth
+
 Candidates(p) ==
-    CASE OrderBy = "declared" -> SetToSortSeq(Declared(p), LAMBDA a, b : a.decl < b.decl)
+    CASE OrderBy = "declared" /\ FollowsAuth(p) -> SetToSortSeq(Declared(p), LAMBDA a, b : a.decl < b.decl)
+      [] OrderBy = "declared" /\ ~FollowsAuth(p) ->
+            [k \in 1..Len(p.roots[ChosenRoot(p)].spine) |-> PartById(p, p.roots[ChosenRoot(p)].spine[k])]
       [] OrderBy = "filename" -> SetToSortSeq({x \in PartSet(p) : x.present}, LAMBDA a, b : a.name.n < b.name.n)
       [] OrderBy = "zip"      -> SetToSortSeq({x \in PartSet(p) : x.present}, LAMBDA a, b : a.zip < b.zip)
       \* "convention": walk the declared list, but when a reference denotes no member take the
@@ -143,7 +173,8 @@ Candidates(p) ==
 \* the member the reader opens for candidate x (empty: not readable)
 Opened(p, x) ==
     LET byRef == {y \in PartSet(p) : y.present /\ y.name = ResolveWith(EffMode(p.fmt), p.base, x.href)} IN
-    CASE OrderBy = "declared" -> byRef
+    CASE OrderBy = "declared" /\ FollowsAuth(p) -> byRef
+      [] OrderBy = "declared" /\ ~FollowsAuth(p) -> {y \in {x} : y.present}   \* the other package's own references
       [] OrderBy = "convention" ->
             IF byRef # {} THEN byRef
             ELSE {y \in PartSet(p) : y.present /\ y.name.dir = p.convdir /\ y.name.stem = p.convstem
